@@ -39,6 +39,19 @@ pub fn kvs_str(kvs: &[Kv]) -> String {
     format!("{{{}}}", v.join(","))
 }
 
+/// Bytes of a small unrelated FST ({zz, zzz, zzzz} with values 9, 2, 3): the
+/// reader that map_data re-points at the bytes under test.
+pub fn other_fst_bytes() -> &'static [u8] {
+    static B: std::sync::OnceLock<Vec<u8>> = std::sync::OnceLock::new();
+    B.get_or_init(|| {
+        let mut b = fst::raw::Builder::memory();
+        b.insert("zz", 9).unwrap();
+        b.insert("zzz", 2).unwrap();
+        b.insert("zzzz", 3).unwrap();
+        b.into_inner().unwrap()
+    })
+}
+
 pub fn front_from(s: &str) -> Front {
     *ALL_FRONTS.iter().find(|f| format!("{:?}", f) == s).expect("front name")
 }
